@@ -8,6 +8,7 @@ import (
 	"go/constant"
 	"go/token"
 	"go/types"
+	"sort"
 	"strings"
 
 	"golang.org/x/tools/go/ssa"
@@ -69,6 +70,10 @@ func labelSuite() []modelSpec {
 	add("TypePeekFor", "PeekFor of a child ending in a label", func(m *model) *Obj { return m.peekFor(l(m)) })
 	add("TypePeekNot", "PeekNot of a child ending in a label", func(m *model) *Obj { return m.peekNot(l(m)) })
 	add("TypePush", "Push of a child ending in a label", func(m *model) *Obj { return m.push(l(m)) })
+	add("TypeSequence", "Sequence ending in an element that prints nothing after a label", func(m *model) *Obj { return m.seq(m.query(m.opaqueChild(true, false)), m.nilNode()) })
+	add("TypeSequence", "Sequence: choice followed by an action", func(m *model) *Obj {
+		return m.seq(m.alt(m.opaqueChild(true, false), m.opaqueChild(true, false)), m.action("__act0()"))
+	})
 	add("TypeAlternate", "Alternate whose alternatives cannot fail", func(m *model) *Obj {
 		return m.alt(m.opaqueChild(false, false), m.opaqueChild(false, false))
 	})
@@ -99,6 +104,9 @@ func checkC08(c *Check) {
 		return
 	}
 	specs := append(append(tokenSuite(), hostileSuite()...), labelSuite()...)
+	if c.Tier == "thorough" {
+		specs = append(specs, thoroughSpecs(c.Seed, 300)...)
+	}
 	optSets := []modelOpts{{Ast: true}, {Ast: false}, {Ast: true, Inline: true}, {Ast: false, Inline: true}}
 	rs, probs := runSuite(r, specs, optSets)
 	for _, p := range probs {
@@ -111,6 +119,7 @@ func checkC08(c *Check) {
 	bigGrammar(c, r)
 	ruleTypeThresholds(c, r)
 	importsDedup(c, r)
+	importOrder(c, r)
 	gofmtRule(c, r)
 	insts := runtimeInstances(c, r)
 	n := 0
@@ -365,4 +374,58 @@ func gofmtRule(c *Check, r *Repo) {
 	}
 	c.Decide(len(bad) == 0, "R-gofmt", "Compile/output is parsed with comments and printed with gofmt's configuration", r.pos(fd.Pos()),
 		"parser.ParseFile(…, ParseComments|…) then printer.Config{Mode: TabIndent|UseSpaces, Tabwidth: 8}.Fprint; both error paths return the error (C18 R-error-propagation)", strings.Join(bad, "; "))
+}
+
+// importOrder: R-import-order — the import block is emitted in gofmt order
+// (sorted by import path), also when some imports carry an alias.
+func importOrder(c *Check, r *Repo) {
+	rg := findRegion(r)
+	if len(rg.problems) > 0 {
+		return
+	}
+	type imp struct{ alias, path string }
+	cases := [][]imp{
+		{{"o", "os"}, {"", "os/exec"}},
+		{{"", "go/ast"}, {"g", "go"}, {"", "go-x/y"}},
+		{{"z", "a/b"}, {"", "a"}, {"y", "a.b"}},
+		{{"", "net/http"}, {"", "bufio"}, {"str", "strings"}},
+	}
+	var bad []string
+	for _, cs := range cases {
+		func() {
+			defer func() {
+				if p := recover(); p != nil {
+					bad = append(bad, fmt.Sprint(p))
+				}
+			}()
+			fm := newFrontModel(r)
+			for _, i := range cs {
+				if i.alias != "" {
+					fm.call("AddImportAlias", i.alias)
+				}
+				fm.call("AddImport", i.path)
+			}
+			fm.call("AddRule", "S")
+			fm.call("AddDot")
+			fm.call("AddExpression")
+			em := fm.m.runFull(rg)
+			if em.Err != "" {
+				bad = append(bad, em.Err)
+				return
+			}
+			var paths []string
+			if s, ok := fm.tree.field("Imports").v.(*SliceV); ok && s != nil {
+				for _, e := range s.elems {
+					p, _, _ := strings.Cut(e.(string), "=")
+					paths = append(paths, p)
+				}
+			}
+			sorted := append([]string{}, paths...)
+			sort.Strings(sorted)
+			if strings.Join(paths, " ") != strings.Join(sorted, " ") {
+				bad = append(bad, fmt.Sprintf("imports are emitted in the order [%s]; gofmt sorts by path: [%s]", strings.Join(paths, " "), strings.Join(sorted, " ")))
+			}
+		}()
+	}
+	c.Decide(len(bad) == 0, "R-import-order", "Compile/imports are emitted sorted by import path", "", fmt.Sprintf("%d import sets with aliases and nested paths evaluated through the first pass: the emitted order is the path order gofmt produces", len(cases)), strings.Join(uniq(bad), "; "))
 }
